@@ -578,7 +578,10 @@ class Driver:
             self.reader.feed_eof()
             name = "EvEofMidPacket false"
         elif name == "EvBadSeq":
-            self.reader.feed_data(cl.frame(b"\x0e", 9))
+            # a PING whose sequence id is not the one the server expects (0 at a command boundary)
+            # (the payload is not consumed by the library when the id is wrong; empty and non-empty payloads are both sent)
+            self.badseq_n = getattr(self, "badseq_n", 0) + 1
+            self.reader.feed_data(cl.frame(b"\x0e" if self.badseq_n % 2 == 0 else b"", (self._client_seq() + 9) % 256))
         self.record(name)
 
     def eof_mid(self, k):
@@ -745,8 +748,8 @@ def random_walk(rng, d: Driver, nsteps, faults=True, kills=True, auth_variants=T
                 ch = rng.random()
                 d.handshake(ok=ch > 0.08, depeof=rng.random() < 0.5)
             elif d.session is not None and _awaiting_auth_reply(d):
-                if faults and rng.random() < 0.05:
-                    d.simple(rng.choice(["EvEof", "EvEofMidPacket"]))
+                if faults and rng.random() < 0.08:
+                    d.simple(rng.choice(["EvEof", "EvEofMidPacket", "EvBadSeq", "EvBadSeq"]))
                     continue
                 d.auth_reply(rng.choice(["ASuccess", "ASuccess", "AForbidden", "AMore", "ARaise"]))
             else:
